@@ -367,6 +367,9 @@ def roundtrip(t, x):
     ents = ents_of(s)
     if x < 0 or not ents:
         return
+    if any(v < 0 for e in ents for v in e[:-1]):
+        REC.skip("shift.roundtrip", "entry-below-zero-is-clipped")  # "... when nothing was clipped"
+        return
     sig = ("rt", s["t"], len(ents))
     case = {"call": "roundtrip", "tier": s, "x": x}
     try:
@@ -437,7 +440,7 @@ def _workload(tier, rng, shard, nshards):
     n = (12000 if tier == "quick" else 400000) // nshards
     pool = []
     for i in range(n):
-        kind, ents, lo, hi, t = rand_tier(rng, pkind=0.35, nmax=5)
+        kind, ents, lo, hi, t = rand_tier(rng, pkind=0.35, nmax=5, neg=0.06)
         if rng.random() < 0.1:
             t = make_tier(kind, "e", [], lo, hi)
             ents = []
